@@ -30,6 +30,7 @@ IntC(v) == [k |-> "int", v |-> v]
 SlC(s, e, st) == [k |-> "sl", s |-> s, e |-> e, st |-> st]
 TsC(v) == [k |-> "ts", v |-> v]          \* 0-d tensor holding v
 TvC(v) == [k |-> "tv", vs |-> v]          \* 1-D tensor
+DslC(v) == [k |-> "dsl", v |-> v]        \* slice I:I+1 whose bounds are computed from a 0-d tensor I holding v (documented form A[i:i+1])
 IsFull(c) == c.k = "sl" /\ c.s = NONE /\ c.e = NONE /\ c.st = NONE
 IsScalarish(c) == c.k \in {"int", "ts"}
 
@@ -44,6 +45,7 @@ CRed(d) == {IntC(v) : v \in {-d, -1, 0, d - 1}}
                  SlC(NONE, NONE, -2), SlC(-1, -d - 1, -1), SlC(d, NONE, NONE), SlC(0, d, 1)}
 CTensor(d) == {TsC(v) : v \in {-d, -1, 0, d - 1}}
               \cup {TvC(<<0>>), TvC(<<d - 1, 0>>), TvC(<<-1, 0, -d>>)}
+              \cup {DslC(v) : v \in {-d, -1, 0, d - 1}}
 
 \* an index tuple is admissible for generation when
 \*  - at most one component is tensor-valued (several switch NumPy to zip semantics, which the
@@ -51,7 +53,7 @@ CTensor(d) == {TsC(v) : v \in {-d, -1, 0, d - 1}}
 \*    integer-like index by a slice (NumPy then moves the advanced dims to the front);
 \*  - for ranks outside FullRanks every component is from the reduced menu, otherwise at most one
 \*    component is outside it.
-NTensor(ix) == Cardinality({i \in 1..Len(ix) : ix[i].k \in {"ts", "tv"}})
+NTensor(ix) == Cardinality({i \in 1..Len(ix) : ix[i].k \in {"ts", "tv", "dsl"}})
 Separated(ix) == \E i, j \in 1..Len(ix) : /\ i < j
                     /\ ((ix[i].k = "tv" /\ IsScalarish(ix[j])) \/ (IsScalarish(ix[i]) /\ ix[j].k = "tv"))
                     /\ \E m \in (i + 1)..(j - 1) : ix[m].k = "sl"
@@ -67,6 +69,7 @@ NormIx(v, d) == IF v < 0 THEN v + d ELSE v
 NpAxisCoords(c, d) ==
   CASE c.k \in {"int", "ts"} -> IF c.v < -d \/ c.v >= d THEN NOCOORD ELSE <<NormIx(c.v, d)>>
     [] c.k = "sl" -> LET p == NpPlanAxis(d, c.s, c.e, c.st) IN [j \in 1..p[3] |-> p[1] + (j - 1) * p[2]]
+    [] c.k = "dsl" -> LET p == NpPlanAxis(d, c.v, c.v + 1, NONE) IN [j \in 1..p[3] |-> p[1] + (j - 1) * p[2]]
     [] c.k = "tv" -> IF \E j \in 1..Len(c.vs) : c.vs[j] < -d \/ c.vs[j] >= d THEN NOCOORD
                      ELSE [j \in 1..Len(c.vs) |-> NormIx(c.vs[j], d)]
 NpIndex(t, ix) ==
@@ -121,12 +124,13 @@ GatherSeq(t, pending, static, dyn, shiftDyn) ==
 (* converter.py:_translate_subscript_expr *)
 ConvLower(t, ix, devs) ==
   LET n == Len(ix)
-      slicedAx == {i \in 1..n : ix[i].k = "sl" /\ ~IsFull(ix[i])}
+      slicedAx == {i \in 1..n : (ix[i].k = "sl" /\ ~IsFull(ix[i])) \/ ix[i].k = "dsl"}
       scalarAx == {i \in 1..n : ix[i].k = "int"}                 \* constant ints only
       nonscAx  == {i \in 1..n : ix[i].k \in {"ts", "tv"}}        \* any non-constant expression
       useSlice == slicedAx # {} \/ Cardinality(scalarAx) > 1
       SpecOf(i) == LET c == ix[i] IN
                    IF c.k = "int" THEN <<i, c.v, c.v + 1, 1>>    \* i:i+1:1, squeezed afterwards
+                   ELSE IF c.k = "dsl" THEN <<i, c.v, c.v + 1, 1>>   \* bounds reshaped to [1] at run time, constant step
                    ELSE LET k == NpStep(c.st) IN
                         <<i, IF c.s # NONE THEN c.s ELSE IF k > 0 THEN 0 ELSE BIG,
                              IF c.e # NONE THEN c.e ELSE IF k > 0 THEN BIG ELSE -BIG, k>>
@@ -149,11 +153,11 @@ ConvLower(t, ix, devs) ==
 (* tensor.py:Tensor.__getitem__ *)
 EagerLower(t, ix, devs) ==
   LET n == Len(ix)
-      slicedAx == {i \in 1..n : ix[i].k = "sl" /\ ~IsFull(ix[i])}
+      slicedAx == {i \in 1..n : (ix[i].k = "sl" /\ ~IsFull(ix[i])) \/ ix[i].k = "dsl"}
       scalarAx == {i \in 1..n : IsScalarish(ix[i])}              \* ints are promoted to 0-d tensors
       nonscAx  == {i \in 1..n : ix[i].k = "tv"}
       SpecOf(i) == LET c == ix[i] d == t.shape[i] IN
-                   IF IsScalarish(c) THEN <<i, c.v, c.v + 1, 1>>
+                   IF IsScalarish(c) \/ c.k = "dsl" THEN <<i, c.v, c.v + 1, 1>>   \* ("s.start or 0": a 0 tensor is falsy, same value)
                    ELSE IF c.st = NONE \/ c.st > 0
                         THEN <<i, IF c.s = NONE THEN 0 ELSE c.s, IF c.e # NONE THEN c.e ELSE d, NpStep(c.st)>>
                         ELSE <<i, IF c.s # NONE THEN c.s ELSE d - 1, IF c.e # NONE THEN c.e ELSE -(d + 1), c.st>>
